@@ -20,6 +20,9 @@ def answer (line : String) : String :=
     | "single" => singleLine toks
     | "reg" => regLine toks
     | "tsa" => tsaLine toks
+    | "strip" => stripLine toks
+    | "natom" => natomLine toks
+    | "leak" => leakLine toks
     | _ => "bad-family"
   | [] => "bad-line"
 
